@@ -19,50 +19,54 @@ EXTENDS Integers, Sequences, FiniteSets, TLC
 
 CONSTANTS Vars,        \* the variable names that may be created, e.g. {"x1","x2","x3"}
           Vals,        \* small integer grid for bounds, e.g. 0..3
-          Costs        \* objective coefficients explored by WNext
+          Costs,       \* objective coefficients explored by WNext
+          Offsets      \* objective constant terms explored
 
 NOREQ == -1
+
 CostsSmall == {-1, 1}          \* cfg files cannot write negative numbers: Costs <- CostsSmall
 CostsGen == {-1, 0, 2}
 VARIABLES created,     \* sequence of created variable names (creation order = column order)
           lb, ub,      \* backend column bounds
           cost,        \* backend objective cost per column
+          offset,      \* constant term of the objective
           sense,       \* "minimize" | "maximize"
           pfix, plb,   \* pending requests per variable (NOREQ = none)
           status,      \* "none" | "Optimal" | "Infeasible"
           snap         \* the model as it was solved last: [cols, cost, sense] - values are read from THAT solve
-wvars == <<created, lb, ub, cost, sense, pfix, plb, status, snap>>
+wvars == <<created, lb, ub, cost, offset, sense, pfix, plb, status, snap>>
 
 CreatedSet == {created[i] : i \in 1..Len(created)}
 
 WInit == /\ created = <<>>
          /\ lb = [v \in Vars |-> 0] /\ ub = [v \in Vars |-> 0] /\ cost = [v \in Vars |-> 0]
-         /\ sense = "minimize"
+         /\ sense = "minimize" /\ offset = 0
          /\ pfix = [v \in Vars |-> NOREQ] /\ plb = [v \in Vars |-> NOREQ]
          /\ status = "none"
-         /\ snap = [cols |-> {}, cost |-> [v \in Vars |-> 0], sense |-> "minimize"]
+         /\ snap = [cols |-> {}, cost |-> [v \in Vars |-> 0], sense |-> "minimize", offset |-> 0]
 
 AddVar(v, l, u) ==
   /\ v \in Vars \ CreatedSet /\ l \in Vals /\ u \in Vals /\ l <= u
   /\ created' = Append(created, v)
   /\ lb' = [lb EXCEPT ![v] = l] /\ ub' = [ub EXCEPT ![v] = u]
-  /\ UNCHANGED <<cost, sense, pfix, plb, status, snap>>
+  /\ UNCHANGED <<cost, offset, sense, pfix, plb, status, snap>>
 
 QueueFix(v, x) ==
   /\ v \in CreatedSet /\ x \in Vals /\ pfix[v] = NOREQ /\ plb[v] = NOREQ
   /\ pfix' = [pfix EXCEPT ![v] = x]
-  /\ UNCHANGED <<created, lb, ub, cost, sense, plb, status, snap>>
+  /\ UNCHANGED <<created, lb, ub, cost, offset, sense, plb, status, snap>>
 
 QueueLB(v, x) ==
   /\ v \in CreatedSet /\ x \in Vals /\ pfix[v] = NOREQ /\ plb[v] = NOREQ
   /\ plb' = [plb EXCEPT ![v] = x]
-  /\ UNCHANGED <<created, lb, ub, cost, sense, pfix, status, snap>>
+  /\ UNCHANGED <<created, lb, ub, cost, offset, sense, pfix, status, snap>>
 
-(* coefs: function from a subset of the created variables to costs *)
-SetObjective(coefs, s) ==
+(* coefs: function from a subset of the created variables to costs; c: the constant term.
+   The new objective REPLACES the old one completely: coefficients of other columns 0, constant = c. *)
+SetObjective(coefs, c, s) ==
   /\ DOMAIN coefs \subseteq CreatedSet /\ DOMAIN coefs # {} /\ s \in {"minimize", "maximize"}
   /\ cost' = [v \in Vars |-> IF v \in DOMAIN coefs THEN coefs[v] ELSE 0]
-  /\ sense' = s
+  /\ sense' = s /\ offset' = c
   /\ UNCHANGED <<created, lb, ub, pfix, plb, status, snap>>
 
 NewLB(v) == IF pfix[v] # NOREQ THEN pfix[v] ELSE IF plb[v] # NOREQ THEN plb[v] ELSE lb[v]
@@ -73,8 +77,8 @@ Optimize ==
   /\ lb' = [v \in Vars |-> NewLB(v)] /\ ub' = [v \in Vars |-> NewUB(v)]
   /\ pfix' = [v \in Vars |-> NOREQ] /\ plb' = [v \in Vars |-> NOREQ]
   /\ status' = IF \E v \in CreatedSet : NewLB(v) > NewUB(v) THEN "Infeasible" ELSE "Optimal"
-  /\ snap' = [cols |-> CreatedSet, cost |-> cost, sense |-> sense]
-  /\ UNCHANGED <<created, cost, sense>>
+  /\ snap' = [cols |-> CreatedSet, cost |-> cost, sense |-> sense, offset |-> offset]
+  /\ UNCHANGED <<created, cost, offset, sense>>
 
 (* value of column v in an optimal solution, or -1 when any value in the box is optimal *)
 OptValue(v) == IF snap.cost[v] = 0 THEN (IF lb[v] = ub[v] THEN lb[v] ELSE -1)
@@ -88,7 +92,7 @@ GetValues(S) == /\ status = "Optimal" /\ S \subseteq snap.cols /\ S # {} /\ UNCH
 
 WNext == \/ \E v \in Vars, l, u \in Vals : AddVar(v, l, u)
          \/ \E v \in Vars, x \in Vals : QueueFix(v, x) \/ QueueLB(v, x)
-         \/ \E D \in (SUBSET Vars) \ {{}} : \E c \in [D -> Costs], s \in {"minimize", "maximize"} : SetObjective(c, s)
+         \/ \E D \in ({CreatedSet} \cup {{v} : v \in CreatedSet}) \ {{}} : \E c \in [D -> Costs], k \in Offsets, s \in {"minimize", "maximize"} : SetObjective(c, k, s)
          \/ Optimize
          \/ \E S \in (SUBSET Vars) \ {{}} : GetValues(S)
 WSpec == WInit /\ [][WNext]_wvars
